@@ -22,6 +22,21 @@
 (* it picked up without the lock, which is only disciplined while published maps are never         *)
 (* altered - TLC must find that violation too (MC_Concurrency_inplace_registrar.cfg).              *)
 (*                                                                                              *)
+(* The service INSTANCE is long-lived: a behaviour is a HISTORY of calls on one instance, some    *)
+(* sequential, some overlapping.  What an operation touches may depend on what earlier calls left *)
+(* on the instance: the state named Carried(g, st) is the only part of the instance's history a   *)
+(* call's rendering may depend on (it is fixed per call at its invocation: calls[i].carry).        *)
+(* Group dirk: the dirk account manager publishes, per refresh, a NEW list of public keys; the      *)
+(* readers take the list under the read lock and use its ELEMENTS outside the lock, which is       *)
+(* disciplined exactly as long as the elements of a published list are never written again.        *)
+(* Reuse = TRUE renders a refresh that builds the new list in the backing array of the published   *)
+(* one (s.pubKeys[:0]) under a refresh-local mutex: right on a fresh instance (nothing published:  *)
+(* the first refresh allocates; MC_Concurrency_reuse_dirk_fresh.cfg, ONE refresh per instance,     *)
+(* must hold) and a violation of Disciplined from the SECOND refresh of a history on              *)
+(* (MC_Concurrency_reuse_dirk.cfg, histories of three calls from a fresh instance, must be          *)
+(* rejected).  Behaviours of group dirk START on a fresh instance (StartInits): what only a       *)
+(* history reaches is reached by a history.                                                        *)
+(*                                                                                              *)
 (* The groups are derived from the goroutine families that main.go wires up (scheduler jobs,      *)
 (* event handlers of the beacon nodes' streams, periodic refreshers, start-up goroutines and the   *)
 (* REST daemon that serves the beacon nodes' MEV-boost requests) x the shared fields of every      *)
@@ -38,11 +53,14 @@ EXTENDS Integers, FiniteSets, Sequences, TLC
 CONSTANTS Groups,     \* the groups explored by this configuration (subset of AllGroups)
           Pinned,     \* render the lock acquisitions as on the pinned tree
           InPlace,    \* render the registration round as altering the published controlled-validators map in place
+          Reuse,      \* render the dirk refresh as building its key list in the backing array of the published list
           MaxPar      \* maximal number of overlapping operations in a schedule (3)
 
 AllGroups == {"wallet", "blockrelay", "messenger", "controller", "cache", "validators", "attester",
               \* the REST (MEV-boost) surface of the block relay and two more pairs of the re-derived table
-              "registrar", "bids", "restcfg", "exechead", "syncagg", "bestvotes", "bidstrategy"}
+              "registrar", "bids", "restcfg", "exechead", "syncagg", "bestvotes", "bidstrategy",
+              \* the dirk account manager (pair 2 of the table): second and later refreshes of one instance
+              "dirk"}
 
 -----------------------------------------------------------------------------
 (* ---------------------------- part (a): sequential meaning -------------------------------- *)
@@ -70,6 +88,21 @@ SeqInits(g) ==
       [] g = "syncagg" -> {[roots |-> [s \in {} |-> 0]]}
       [] g = "bestvotes" -> {[seen |-> 0]}
       [] g = "bidstrategy" -> {[seen |-> 0]}
+      \* ONE dirk account manager serves every history: any set of accounts may be listed by Dirk (offer) and known
+      \* to the service; pub = a list of public keys has been published on this instance (0: fresh instance)
+      [] g = "dirk" -> {[offer |-> o, known |-> k, pub |-> p] : o \in SUBSET {1, 2}, k \in SUBSET {1, 2}, p \in 0..1}
+                          \ {[offer |-> o, known |-> k, pub |-> 0] : o \in SUBSET {1, 2}, k \in (SUBSET {1, 2}) \ {{}}}
+
+\* Start states of the exhaustive runs.  Group dirk: a FRESH instance (nothing published, nothing known) - every
+\* other state of SeqInits is reached by a history of calls (recorded histories may start in any of them: the
+\* drivers keep one instance over many histories).
+StartInits(g) ==
+    CASE g = "dirk" -> {[offer |-> o, known |-> {}, pub |-> 0] : o \in SUBSET {1, 2}}
+      [] OTHER -> SeqInits(g)
+
+\* The part of the instance's history that the RENDERING of a call (its accesses) may depend on.  Everything else
+\* an operation does is independent of what earlier calls left behind.
+Carried(g, st) == IF g = "dirk" THEN st.pub > 0 ELSE FALSE
 
 Put(f, k, v) == [x \in (DOMAIN f) \cup {k} |-> IF x = k THEN v ELSE f[x]]
 Drop(f, D) == [x \in (DOMAIN f) \ D |-> f[x]]
@@ -141,6 +174,16 @@ Apply(g, st, o) ==
       \* an auction ends with a verified winning bid (1) or, when its deadline passes first, without one (0): the
       \* strategies keep no state that a result could depend on (race half only)
       [] g = "bidstrategy" -> {[st |-> st, res |-> r] : r \in {0, 1}}
+      [] g = "dirk" ->
+            \* "Account" 1, 2 = the block of accounts of wallet 1, 2 (handled alike by every operation).
+            \* Offer(S): from now on Dirk lists the accounts S (environment).  Refresh(first): the periodic refresh;
+            \* the wallet whose accounts come in first does not matter; nothing listed = the old accounts are retained.
+            \* Query("by_key"): ValidatingAccountsForEpoch and SyncCommitteeAccountsForEpoch; Query("by_index"): their
+            \* ByIndex variants (all indices asked for): every known account validates; res = the accounts reported.
+            CASE o.op = "Offer" -> {[st |-> [st EXCEPT !.offer = o.x], res |-> 0]}
+              [] o.op = "Refresh" ->
+                    {[st |-> IF st.offer = {} THEN st ELSE [st EXCEPT !.known = st.offer, !.pub = 1], res |-> 0]}
+              [] OTHER (* Query *) -> {[st |-> st, res |-> Mask(st.known)]}
 
 \* the sequential prologue of every history of a group (establishes a state worth racing on)
 Prologue(g) ==
@@ -148,12 +191,27 @@ Prologue(g) ==
       [] g = "messenger" -> <<[op |-> "Message", s |-> OldSlot, r |-> 1], [op |-> "Message", s |-> MidSlot, r |-> 2]>>
       [] g = "validators" -> <<[op |-> "NodeSet", x |-> {1}], [op |-> "Refresh"]>>
       [] g = "cache" -> <<[op |-> "BlockEvent", r |-> 1]>>
+      \* the first refresh of the history: every overlapping refresh is a second or later one of its instance
+      [] g = "dirk" -> <<[op |-> "Offer", x |-> {1, 2}], [op |-> "Refresh", first |-> 1]>>
       [] OTHER -> <<>>
 
 \* environment changes made between prologue and the overlapping operations (TLC picks one)
 Twists(g) ==
     CASE g \in {"blockrelay", "restcfg"} -> {<<[op |-> "SourceSet", x |-> 2]>>, <<[op |-> "SourceSet", x |-> Fail]>>}
       [] g = "validators" -> {<<[op |-> "NodeSet", x |-> {1, 2}]>>, <<[op |-> "NodeSet", x |-> {}]>>}
+      \* the history between the first refresh and the overlap: nothing changes in Dirk; accounts removed; Dirk lists
+      \* nothing (the old list is retained); the list shrank and grows again; the accounts are exchanged
+      [] g = "dirk" -> {<<>>,
+                        <<[op |-> "Offer", x |-> {1}]>>,
+                        <<[op |-> "Offer", x |-> {}]>>,
+                        <<[op |-> "Offer", x |-> {1}], [op |-> "Refresh", first |-> 1], [op |-> "Offer", x |-> {1, 2}]>>,
+                        <<[op |-> "Offer", x |-> {2}], [op |-> "Refresh", first |-> 2], [op |-> "Offer", x |-> {1}]>>}
+      \* Structures that the FIRST call on an instance creates and later calls find (the epoch's map of attested
+      \* validators, the votes of a block already seen, the relays' decoded public keys): the overlapping calls are
+      \* the first ones of their instance, or come after a sequential call that has created the structure
+      [] g = "attester" -> {<<>>, <<[op |-> "Attest", v |-> {2}]>>}
+      [] g = "bestvotes" -> {<<>>, <<[op |-> "HeadEvent", b |-> 1]>>}
+      [] g = "bidstrategy" -> {<<>>, <<[op |-> "Bid", s |-> "best"], [op |-> "Bid", s |-> "deadline"]>>}
       [] OTHER -> {<<>>}
 
 \* the operations production overlaps
@@ -184,6 +242,9 @@ ParOps(g) ==
       [] g = "bestvotes" -> {[op |-> "HeadEvent", b |-> 1], [op |-> "HeadEvent", b |-> 2]}
       \* AuctionBlock (proposal job) || immediate auction of a REST BuilderBid in the builder-bid strategies
       [] g = "bidstrategy" -> {[op |-> "Bid", s |-> "best"], [op |-> "Bid", s |-> "deadline"]}
+      \* periodic accounts refresh (wallet 1 / wallet 2 finishing first) || the account queries of every duty job
+      [] g = "dirk" -> {[op |-> "Refresh", first |-> 1], [op |-> "Refresh", first |-> 2]}
+                       \cup {[op |-> "Query", kind |-> k] : k \in {"by_key", "by_index"}}
 
 AllOps(g) == ParOps(g) \cup {Prologue(g)[i] : i \in DOMAIN Prologue(g)}
                        \cup UNION {{t[i] : i \in DOMAIN t} : t \in Twists(g)}
@@ -192,9 +253,23 @@ Count(s, x) == Cardinality({i \in DOMAIN s : s[i] = x})
 
 \* overlap patterns: 1..Width(g) operations in gate-release order, at most two instances of each
 \* (group restcfg has five operations and two environment twists: pairs)
-Width(g) == IF g = "restcfg" /\ MaxPar > 2 THEN 2 ELSE MaxPar
+Width(g) == IF g \in {"restcfg", "dirk"} /\ MaxPar > 2 THEN 2 ELSE MaxPar
 Schedules(g) ==
-    {s \in UNION {[1..n -> ParOps(g)] : n \in 1..Width(g)} : \A x \in ParOps(g) : Count(s, x) <= 2}
+    {s \in UNION {[1..n -> ParOps(g)] : n \in 1..Width(g)} :
+        /\ \A x \in ParOps(g) : Count(s, x) <= 2
+        \* the accounts refresher is ONE periodic job (rescheduled after it returned): it never overlaps itself
+        /\ g = "dirk" => Cardinality({i \in DOMAIN s : s[i].op = "Refresh"}) <= 1}
+
+\* How the environment resolves the overlap of a schedule: "free" = the calls start in the generated order and run
+\* as they come; or ONE call is HELD at an interface while the others run, then released:
+\*   "refresh-mid"  the refresh is held between its two wallets (the accounts of the first are taken in, those of
+\*                  the second not yet) until the queries have returned;
+\*   "query-snap"   the (first) query is held between taking its snapshot of the key list and using it (at the
+\*                  validators manager) until the refresh has published its accounts (held in turn at its validators
+\*                  refresh until the query has returned).
+Holds(g, s) ==
+    IF g = "dirk" /\ (\E i \in DOMAIN s : s[i].op = "Refresh") /\ (\E i \in DOMAIN s : s[i].op = "Query")
+    THEN {"free", "refresh-mid", "query-snap"} ELSE {"free"}
 
 -----------------------------------------------------------------------------
 (* ------------------------------ part (b): lock discipline --------------------------------- *)
@@ -206,7 +281,8 @@ Guard ==
             "blockrelay.builderBidsCache", "blockrelay.signedValidatorRegistrations",
             "blockrelay.latestValidatorRegistrations", "util.builders", "cache.executionChainHead",
             "syncaggregator.beaconBlockRoots", "controller.subscriptionInfos", "controller.pendingAttestations",
-            "bestproposal.priorBlocksVotes", "builderbid.relayPubkeys"} |->
+            "bestproposal.priorBlocksVotes", "builderbid.relayPubkeys",
+            "dirk.accounts", "dirk.pubKeys", "dirk.pubKeys.elements", "dirk.wallets"} |->
         CASE v = "wallet.accounts" -> "wallet.mutex"
           [] v = "blockrelay.executionConfig" -> "blockrelay.executionConfigMu"
           [] v = "v1.sharedProposerConfig" -> "blockrelay.executionConfigMu"
@@ -229,7 +305,14 @@ Guard ==
           [] v = "controller.subscriptionInfos" -> "controller.subscriptionInfosMutex"
           [] v = "controller.pendingAttestations" -> "controller.pendingAttestationsMutex"
           [] v = "bestproposal.priorBlocksVotes" -> "bestproposal.priorBlocksVotesMu"
-          [] v = "builderbid.relayPubkeys" -> "builderbid.relayPubkeysMu"]
+          [] v = "builderbid.relayPubkeys" -> "builderbid.relayPubkeysMu"
+          \* dirk account manager: the map of accounts and the list of public keys are REPLACED by a refresh (both
+          \* under the write lock); the field holding the list, and the elements of a list that has been published
+          \* through it: readers take the list under the read lock and hand its elements on WITHOUT it
+          [] v = "dirk.accounts" -> "dirk.mutex"
+          [] v = "dirk.pubKeys" -> "dirk.mutex"
+          [] v = "dirk.pubKeys.elements" -> "dirk.mutex"
+          [] v = "dirk.wallets" -> "dirk.walletsMutex"]
 
 Acc(v, k, held) == [var |-> v, kind |-> k, held |-> held]    \* held: set of <<lock, mode>>
 None == {}
@@ -256,6 +339,23 @@ RoundSteps ==
       \* the round fills a map of its own and publishes it - or (InPlace) writes the entries of the published map
       IF InPlace THEN Acc("blockrelay.controlledValidators.entries", "W", W("blockrelay.controlledValidatorsMu"))
       ELSE Acc("blockrelay.controlledValidators", "W", W("blockrelay.controlledValidatorsMu"))>>
+
+\* dirk account manager.  carry = a list of public keys has been published on the instance before this call.
+DirkKeysSnapshot ==      \* the list under the read lock, its elements (handed to the validators manager) without
+    <<Acc("dirk.pubKeys", "R", R("dirk.mutex")), Acc("dirk.pubKeys.elements", "R", None)>>
+DirkSteps(o, carry) ==
+    IF o.op = "Refresh"
+    THEN <<Acc("dirk.wallets", "W", W("dirk.walletsMutex"))>>                                     \* openWallet (cache)
+         \* Reuse: the new list starts as s.pubKeys[:0] (taken under the read lock); the wallet goroutines append to
+         \* it under the refresh's OWN mutex (no lock that any other call knows).  On a fresh instance there is no
+         \* published array to write into: the appends allocate
+         \o (IF Reuse THEN <<Acc("dirk.pubKeys", "R", R("dirk.mutex"))>> ELSE <<>>)
+         \o (IF Reuse /\ carry THEN <<Acc("dirk.pubKeys.elements", "W", None)>> ELSE <<>>)
+         \o <<Acc("dirk.accounts", "W", W("dirk.mutex")), Acc("dirk.pubKeys", "W", W("dirk.mutex"))>>   \* publication
+         \o DirkKeysSnapshot                                                                      \* refreshValidators
+    ELSE IF o.op = "Query"
+    THEN DirkKeysSnapshot \o <<Acc("dirk.accounts", "R", R("dirk.mutex"))>>
+    ELSE <<>>
 
 \* The accesses of every operation, in program order, with the locks held at the access.
 Steps(g, o) ==
@@ -320,11 +420,13 @@ Steps(g, o) ==
       [] g = "bidstrategy" ->
             <<Acc("builderbid.relayPubkeys", "R", R("builderbid.relayPubkeysMu")),
               Acc("builderbid.relayPubkeys", "W", W("builderbid.relayPubkeysMu"))>>
+      [] g = "dirk" -> DirkSteps(o, FALSE)          \* (the rendering of a call of a history: StepsOf)
 
 -----------------------------------------------------------------------------
 VARIABLES g,        \* the group of the current history
           st,       \* abstract state
-          calls,    \* id -> [op, status: "pending" | "done" | "returned", res, pc: next access, in: access in progress]
+          calls,    \* id -> [op, status: "pending" | "done" | "returned", res, pc: next access, in: access in progress,
+                    \*        carry: Carried(g, st) at the invocation]
           lin       \* ids in linearization order (history variable)
 
 vars == <<g, st, calls, lin>>
@@ -334,12 +436,13 @@ NoRes == -9
 
 Init ==
     /\ g \in Groups
-    /\ st \in SeqInits(g)
+    /\ st \in StartInits(g)
     /\ calls = [i \in {} |-> 0]
     /\ lin = <<>>
 
 Active == {i \in DOMAIN calls : calls[i].in}
-AccessOf(i) == Steps(g, calls[i].op)[calls[i].pc]
+StepsOf(i) == IF g = "dirk" THEN DirkSteps(calls[i].op, calls[i].carry) ELSE Steps(g, calls[i].op)
+AccessOf(i) == StepsOf(i)[calls[i].pc]
 
 Conflicts(h1, h2) ==      \* lock sets that cannot be held at the same time
     \E a \in h1, b \in h2 : a[1] = b[1] /\ (a[2] = "W" \/ b[2] = "W")
@@ -347,7 +450,11 @@ Conflicts(h1, h2) ==      \* lock sets that cannot be held at the same time
 Invoke(i, o) ==
     /\ i \notin DOMAIN calls
     /\ o \in AllOps(g)
-    /\ calls' = Put(calls, i, [op |-> o, status |-> "pending", res |-> NoRes, pc |-> 1, in |-> FALSE])
+    \* the accounts refresher is one periodic job: a refresh is only started when the previous one has returned
+    /\ (g = "dirk" /\ o.op = "Refresh") =>
+            \A j \in DOMAIN calls : calls[j].op.op = "Refresh" => calls[j].status = "returned"
+    /\ calls' = Put(calls, i, [op |-> o, status |-> "pending", res |-> NoRes, pc |-> 1, in |-> FALSE,
+                                carry |-> Carried(g, st)])
     /\ UNCHANGED <<g, st, lin>>
 
 \* A job-round may only skip its run (result 0) while another job-round is in progress (activity semaphore).
@@ -368,7 +475,7 @@ Linearize(i) ==
 \* an access to a shared variable begins: the locks it holds must be free in the Go sense
 BeginAccess(i) ==
     /\ i \in DOMAIN calls /\ calls[i].status # "returned" /\ ~calls[i].in
-    /\ calls[i].pc <= Len(Steps(g, calls[i].op))
+    /\ calls[i].pc <= Len(StepsOf(i))
     /\ \A j \in Active : ~Conflicts(AccessOf(i).held, AccessOf(j).held)
     /\ calls' = [calls EXCEPT ![i].in = TRUE]
     /\ UNCHANGED <<g, st, lin>>
@@ -380,7 +487,7 @@ EndAccess(i) ==
 
 Return(i) ==
     /\ i \in DOMAIN calls /\ calls[i].status = "done" /\ ~calls[i].in
-    /\ calls[i].pc > Len(Steps(g, calls[i].op))
+    /\ calls[i].pc > Len(StepsOf(i))
     /\ calls' = [calls EXCEPT ![i].status = "returned"]
     /\ UNCHANGED <<g, st, lin>>
 
@@ -416,4 +523,11 @@ Disciplined ==
 
 \* state constraint of the exhaustive runs: one schedule = the prologue is skipped, <= MaxPar calls
 Bounded == Cardinality(DOMAIN calls) <= MaxPar
+
+\* state constraint of the self-checks of the Reuse rendering (group dirk): histories of refreshes and queries on one
+\* instance while Dirk's list stays as it is (a sub-space: enough to hold a violation, and fast)
+ReuseProbe ==
+    /\ Bounded /\ st.offer = {1, 2}
+    /\ \A i \in DOMAIN calls : calls[i].op \in {[op |-> "Refresh", first |-> 1], [op |-> "Query", kind |-> "by_key"]}
+    /\ Cardinality({i \in DOMAIN calls : calls[i].op.op = "Query"}) <= 1
 =============================================================================
